@@ -51,7 +51,7 @@ def shards(tier, seed):
         s += [{'w': 'walk', 'n': 60, 'i': 40 + i, 'every': 3} for i in range(4)]
         s += [{'w': 'complete', 'n': 150, 'i': 60 + i, 'every': 2} for i in range(4)]
         return s
-    s = [{'w': 'bfs', 'nj': 2, 'reg': 2, 'jo': 2, 'i': i, 'n': 48, 'split': 4, 'every': 4} for i in range(48)]
+    s = [{'w': 'bfs', 'nj': 2, 'reg': 2, 'jo': 2, 'i': i, 'n': 48, 'split': 4, 'every': 4, 'max_states': 60000} for i in range(48)]
     s += [{'w': 'bfs', 'nj': 3, 'reg': 2, 'jo': 1, 'i': i, 'n': 32, 'split': 4, 'every': 10, 'max_states': 120000} for i in range(32)]
     s += [{'w': 'walk', 'n': 900, 'i': 400 + i, 'every': 2} for i in range(8)]
     s += [{'w': 'complete', 'n': 2500, 'i': 600 + i, 'every': 1} for i in range(8)]
